@@ -1754,6 +1754,10 @@ class Engine:
             if isinstance(n, ast.Name) and isinstance(n.ctx, ast.Load) and \
                     getattr(n, 'lineno', 0) >= s.lineno:
                 used.add(n.id)
+        for cl in invs:
+            for n in ast.walk(ast.parse(cl.src.strip(), mode='eval')):
+                if isinstance(n, ast.Name):
+                    used.add(n.id)
         shape = tuple(sorted((k, repr(v.ty) if v.ty.kind != 'rec' else
                               'rec' + repr(sorted(v.t))) for k, v in st.env.items()
                              if not k.startswith('__') and k in used and
@@ -1768,7 +1772,7 @@ class Engine:
         head.entry_env = st.entry_env
         head.trace = ('K%d.%d' % (s.lineno, len([1 for k in self._loops_done
                                                   if isinstance(k, tuple) and k[0] == id(s)])),)
-        head.sharded = True
+        head.sharded = False        # the continuation's paths are sharded afresh
         head.writes = set()
         self.havoc_alloc(head)
         self.havoc(head, self.cur_contract.modifies_, self.cur_penv, 'cut')
@@ -1782,7 +1786,7 @@ class Engine:
             if k not in names:
                 del env[k]
                 continue
-            env[k] = self.fresh_like(v, k, head)
+            env[k] = v if v.ty.kind == 'none' else self.fresh_like(v, k, head)
         head.env = env
         head = self.add_all(head, [self.spec_bool(cl.src, head, env) for cl in invs])
         if head is None:
